@@ -2,9 +2,13 @@
 # replay for failed obligation 'to_blackbird+from_blackbird/ir-roundtrip/to_blackbird.op3.select-carried' (property C14)
 # case: ''; solver: z3
 # verifier output (counter-model):
-#   choice_op = 29
+#   choice_op = 30
 #   s = 0
+I = {'op': 30, 'r0': 0.0, 'r1': 0.0, 'p1': 0.0, 't': 0.0, 'p2': 0.0, 'phi': 0.0, 's': 0.0}
+OBLIGATION = 'to_blackbird+from_blackbird/ir-roundtrip/to_blackbird.op3.select-carried'
+
 import sys
-print('obligation to_blackbird+from_blackbird/ir-roundtrip/to_blackbird.op3.select-carried is not discharged on this tree; no failing concrete input was constructed')
-print('no-failing-input-found')
-sys.exit(1)
+def violated(msg):
+    print("REPLAY-VIOLATION", OBLIGATION, "-", msg)
+    sys.exit(1)
+from native.c14_replay import replay; replay('blackbird', OBLIGATION, I)
